@@ -37,7 +37,8 @@ def gen_cases(tier, seed):
         cases += mapcases.random_large_cases(rng, 16, max_cells=60)
     else:
         cases = mapcases.exhaustive_shape_cases(rng)
-        cases += mapcases.random_large_cases(rng, 500)
+        cases += mapcases.random_large_cases(rng, 2000)
+        cases += mapcases.nasty_quick_cases(rng, 1600)
     for i, c in enumerate(cases):
         m = i % 6
         if m == 0:
